@@ -159,10 +159,6 @@ func r18load(c *core.Ctx) {
 	r18loadX(c, R)
 	// main: GetConfiguration dominates every read; no store into the configuration
 
-	if who := mainDelegates(c); who != "" {
-		c.SoftUndecided("%s: main hands the modes over to %s; the main-level rules read the body of main only", R, who)
-		return
-	}
 	mainFn := mustFunc(c, pMain, "main")
 	mp := core.NewPather(mainFn)
 	gc := core.CallsTo(mainFn, pStg+".Conf.GetConfiguration")
@@ -172,19 +168,23 @@ func r18load(c *core.Ctx) {
 	}
 	cfg := mp.Path(gc[0].Common().Args[0])
 	reads, early, stores := 0, 0, 0
-	for _, b := range mainFn.Blocks {
-		for _, in := range b.Instrs {
-			switch x := in.(type) {
-			case *ssa.UnOp:
-				if x.Op == token.MUL && strings.HasPrefix(mp.Path(x.X), cfg+".Configuration.") {
-					reads++
-					if !core.Dominates(gc[0], x) {
-						early++
+	for _, body := range mainBodies(c) {
+		// a body main hands a mode to is entered after the load when its call is
+		entered := body.call == nil || core.Dominates(gc[0], body.call)
+		for _, b := range body.fn.Blocks {
+			for _, in := range b.Instrs {
+				switch x := in.(type) {
+				case *ssa.UnOp:
+					if x.Op == token.MUL && strings.HasPrefix(body.p.Path(x.X), cfg+".Configuration.") {
+						reads++
+						if !entered || (body.call == nil && !core.Dominates(gc[0], x)) {
+							early++
+						}
 					}
-				}
-			case *ssa.Store:
-				if strings.HasPrefix(mp.Path(x.Addr), cfg+".") {
-					stores++
+				case *ssa.Store:
+					if strings.HasPrefix(body.p.Path(x.Addr), cfg+".") {
+						stores++
+					}
 				}
 			}
 		}
@@ -196,10 +196,6 @@ func r18load(c *core.Ctx) {
 func r18flow(c *core.Ctx, byTag map[string]string) {
 	const R = "R18.flow"
 	c.Rule(R, "every procedure argument and loop bound in main is the field of its documented key (both modes)")
-	if who := mainDelegates(c); who != "" {
-		c.SoftUndecided("%s: main hands the modes over to %s; the main-level rules read the body of main only", R, who)
-		return
-	}
 	mainFn := mustFunc(c, pMain, "main")
 	p := core.NewPather(mainFn)
 	gc := core.CallsTo(mainFn, pStg+".Conf.GetConfiguration")
@@ -216,12 +212,13 @@ func r18flow(c *core.Ctx, byTag map[string]string) {
 	n := 0
 	for _, callee := range callees {
 		want := tConfFlow[callee]
-		calls := core.CallsTo(mainFn, callee)
+		calls := mainCallsTo(c, callee)
 		if len(calls) == 0 {
 			c.Fail(R, "main:"+shortName(callee)+":called", mainFn.Pos(), "main never calls %s", shortName(callee))
 			continue
 		}
-		for ci, call := range calls {
+		for ci, mc := range calls {
+			call, p := mc.ci, mc.b.p
 			for i, tag := range want {
 				if tag == "" {
 					continue
@@ -234,18 +231,19 @@ func r18flow(c *core.Ctx, byTag map[string]string) {
 		}
 	}
 	// interfaces
-	ifs := core.CallsTo(mainFn, "net.InterfaceByName")
 	byArg := map[string]string{}
-	for _, ci := range ifs {
-		byArg[p.Path(ci.Common().Args[0])] = p.Path(ci.(*ssa.Call)) + "#0.Index"
+	for _, mc := range mainCallsTo(c, "net.InterfaceByName") {
+		byArg[mc.b.p.Path(mc.ci.Common().Args[0])] = mc.b.p.Path(mc.ci.(*ssa.Call)) + "#0.Index"
 	}
 	for _, t := range []struct{ tag, attach string }{{"downlink_iface", "AttachClientFacingProgramToInterface"}, {"uplink_iface", "AttachUpfFacingProgramToInterface"}} {
 		n++
 		idx, found := byArg[CF(t.tag)]
 		okA := false
-		for _, ci := range core.Calls(mainFn) {
-			if strings.HasSuffix(core.CalleeName(ci.Common()), "."+t.attach) && len(ci.Common().Args) == 2 && p.Path(ci.Common().Args[1]) == idx {
-				okA = true
+		for _, body := range mainBodies(c) {
+			for _, ci := range core.Calls(body.fn) {
+				if strings.HasSuffix(core.CalleeName(ci.Common()), "."+t.attach) && len(ci.Common().Args) == 2 && body.p.Path(ci.Common().Args[1]) == idx {
+					okA = true
+				}
 			}
 		}
 		c.Check(found && okA, R, "main:"+t.attach+"("+t.tag+")", mainFn.Pos(), t.tag+" → "+t.attach, "the interface named by %q must be the one given to %s", t.tag, t.attach)
@@ -272,14 +270,14 @@ func r18flow(c *core.Ctx, byTag map[string]string) {
 		parts := strings.Split(k, "#")
 		var ord int
 		fmt.Sscanf(parts[1], "%d", &ord)
-		calls := core.CallsTo(mainFn, parts[0])
+		calls := mainCallsTo(c, parts[0])
 		key := "main:loop-bound:" + shortName(k)
 		if len(calls) < ord {
 			c.Fail(R, key, mainFn.Pos(), "call %s not found", shortName(k))
 			continue
 		}
-		call := calls[ord-1]
-		got := enclosingLoopLimit(mainFn, p, call.Block())
+		call := calls[ord-1].ci
+		got := enclosingLoopLimit(calls[ord-1].b.fn, calls[ord-1].b.p, call.Block())
 		alt := ""
 		if a, b, ok := minArgs(wantBounds[k]); ok {
 			alt = min(b, a)
@@ -322,7 +320,7 @@ func enclosingLoopLimit(fn *ssa.Function, p *core.Pather, b *ssa.BasicBlock) str
 		d := domDepth(body)
 		if d > bestDepth {
 			bestDepth = d
-			best = l.limitPath
+			best = p.Path(l.limitVal)
 		}
 	}
 	return best
@@ -457,10 +455,6 @@ func r18mode(c *core.Ctx) {
 		}
 	}
 	// main: procedures only under mode 1/2
-	if who := mainDelegates(c); who != "" {
-		c.SoftUndecided("%s: main hands the modes over to %s; the main-level rules read the body of main only", R, who)
-		return
-	}
 	mainFn := mustFunc(c, pMain, "main")
 	mp := core.NewPather(mainFn)
 	gm := core.CallsTo(mainFn, pStg+".GetMode")
@@ -493,15 +487,25 @@ func r18mode(c *core.Ctx) {
 	}
 	outside := 0
 	nproc := 0
-	for _, ci := range core.Calls(mainFn) {
-		n := core.CalleeName(ci.Common())
-		if !procs[n] {
-			continue
+	// where a call of a mode body sits in main: the call itself, or the call that enters the body
+	anchor := func(b *mainBody, ci ssa.CallInstruction) *ssa.BasicBlock {
+		if b.call != nil {
+			return b.call.Block()
 		}
-		nproc++
-		if !(edge1.Dominates(ci.Block()) && len(edge1.Preds) == 1) && !(edge2.Dominates(ci.Block()) && len(edge2.Preds) == 1) {
-			outside++
-			c.Fail(R, "main:"+shortName(n)+":outside-mode-branch", ci.Pos(), "%s can run although neither traffic nor test mode was selected", shortName(n))
+		return ci.Block()
+	}
+	for _, body := range mainBodies(c) {
+		for _, ci := range core.Calls(body.fn) {
+			n := core.CalleeName(ci.Common())
+			if !procs[n] {
+				continue
+			}
+			nproc++
+			at := anchor(body, ci)
+			if !(edge1.Dominates(at) && len(edge1.Preds) == 1) && !(edge2.Dominates(at) && len(edge2.Preds) == 1) {
+				outside++
+				c.Fail(R, "main:"+shortName(n)+":outside-mode-branch", ci.Pos(), "%s can run although neither traffic nor test mode was selected", shortName(n))
+			}
 		}
 	}
 	if outside == 0 {
@@ -513,10 +517,12 @@ func r18mode(c *core.Ctx) {
 		edge *ssa.BasicBlock
 	}{{"TRAFFIC MODE", edge1}, {"TEST MODE", edge2}} {
 		okB := false
-		for _, ci := range core.Calls(mainFn) {
-			call, isC := ci.(*ssa.Call)
-			if isC && strings.HasPrefix(core.CalleeName(&call.Call), "fmt.Print") && callHasConstString(call, t.text) && t.edge.Dominates(call.Block()) {
-				okB = true
+		for _, body := range mainBodies(c) {
+			for _, ci := range core.Calls(body.fn) {
+				call, isC := ci.(*ssa.Call)
+				if isC && strings.HasPrefix(core.CalleeName(&call.Call), "fmt.Print") && callHasConstString(call, t.text) && t.edge.Dominates(anchor(body, ci)) {
+					okB = true
+				}
 			}
 		}
 		c.Check(okB, R, "main:banner:"+t.text, mainFn.Pos(), t.text+" printed in its branch", "the %q banner is not printed in the branch of its mode", t.text)
